@@ -65,16 +65,16 @@ func loadKnown() *KnownFindings {
 }
 
 type replayJob struct {
-	ID       string   `json:"id"`
-	Harness  string   `json:"harness"`
-	Tier     int      `json:"tier"`
-	Vector   []uint64 `json:"vector"`
-	Label    string   `json:"label,omitempty"`
-	Known    []string `json:"known"`
+	ID        string   `json:"id"`
+	Harness   string   `json:"harness"`
+	Tier      int      `json:"tier"`
+	Vector    []uint64 `json:"vector"`
+	Label     string   `json:"label,omitempty"`
+	Known     []string `json:"known"`
 	Decisions []uint64 `json:"decisions,omitempty"` // schedule-dependent counterexamples: the full decision vector
-	Observes []string `json:"observes,omitempty"`
-	Property string   `json:"property,omitempty"`
-	What     string   `json:"what,omitempty"`
+	Observes  []string `json:"observes,omitempty"`
+	Property  string   `json:"property,omitempty"`
+	What      string   `json:"what,omitempty"`
 }
 
 type replayResult struct {
